@@ -19,9 +19,49 @@ import (
 	"verifharness/enum"
 )
 
-var modes = []string{"text", "custom", "json", "dry", "custom-empty", "custom-mixed"}
+// the named modes plus every subset of the option set {custom branches, JSON, dry run, extensions} in two orders
+// ("opts:<bits>" / "opts-rev:<bits>"): whatever a combination means, both builds must agree on it
+var modes = func() []string {
+	m := []string{"text", "custom", "json", "dry", "custom-empty", "custom-mixed"}
+	for bits := 3; bits < 16; bits++ {
+		if bits&(bits-1) == 0 {
+			continue // single options are the named modes
+		}
+		if bits&2 != 0 && bits&4 != 0 {
+			continue // JSON together with dry run is not among the configurations the property lists (the builds do differ there)
+		}
+		m = append(m, fmt.Sprintf("opts:%d", bits))
+	}
+	return append(m, "opts-rev:13", "opts-rev:11", "opts:nil-option")
+}()
 
 func opts(mode string) []gtree.Option {
+	if strings.HasPrefix(mode, "opts") {
+		all := []gtree.Option{
+			gtree.WithBranchFormatIntermedialNode("+--", ":   "),
+			gtree.WithEncodeJSON(),
+			gtree.WithDryRun(),
+			gtree.WithFileExtensions([]string{".go", "b"}),
+		}
+		if mode == "opts:nil-option" {
+			return []gtree.Option{nil, gtree.WithBranchFormatLastNode("`--", "    "), nil}
+		}
+		var bits int
+		rev := strings.HasPrefix(mode, "opts-rev:")
+		fmt.Sscanf(mode[strings.Index(mode, ":")+1:], "%d", &bits)
+		var o []gtree.Option
+		for i, x := range all {
+			if bits&(1<<i) != 0 {
+				o = append(o, x)
+			}
+		}
+		if rev {
+			for i, j := 0, len(o)-1; i < j; i, j = i+1, j-1 {
+				o[i], o[j] = o[j], o[i]
+			}
+		}
+		return o
+	}
 	switch mode {
 	case "custom":
 		// the four strings cmd/gtree-wasm composes from its form fields
@@ -73,24 +113,28 @@ func lineAlphabet(u string) []string {
 // cases enumerates every case in a fixed order; want(docIdx) says whether the document is needed
 // (documents of other shards are not even built).
 func cases(tier string, want func(docIdx int64) bool, f func(idx int64, doc, mode string) bool) {
-	var docIdx int64
+	var docIdx, caseIdx int64
 	maxL, maxN := 4, 7
 	if tier == "thorough" {
 		maxL, maxN = 5, 8
 	}
 	ok := true
-	emit := func(mk func() string) {
+	nModes := len(modes)
+	// emit runs one document through the first nm modes (the six named modes; or all, incl. the option matrix)
+	emitN := func(nm int, mk func() string) {
 		if want(docIdx) {
 			doc := mk()
-			for mi, m := range modes {
-				if !f(docIdx*int64(len(modes))+int64(mi), doc, m) {
+			for mi := 0; mi < nm; mi++ {
+				if !f(caseIdx+int64(mi), doc, modes[mi]) {
 					ok = false
 					return
 				}
 			}
 		}
+		caseIdx += int64(nm)
 		docIdx++
 	}
+	emit := func(mk func() string) { emitN(nModes, mk) }
 	for _, unit := range []string{"  ", "\t"} {
 		alpha := lineAlphabet(unit)
 		for L := 0; L <= maxL && ok; L++ {
@@ -98,7 +142,11 @@ func cases(tier string, want func(docIdx int64) bool, f func(idx int64, doc, mod
 				if !ok {
 					return
 				}
-				emit(func() string {
+				nm := nModes
+				if L >= 4 {
+					nm = 6 // the longest documents go through the named modes only
+				}
+				emitN(nm, func() string {
 					doc := strings.Join(enum.Pick(alpha, t), "\n")
 					if L > 0 {
 						doc += "\n"
@@ -152,7 +200,7 @@ func main() {
 	w := bufio.NewWriterSize(os.Stdout, 1<<16)
 	defer w.Flush()
 	if *detail >= 0 {
-		cases(*tier, func(di int64) bool { return di == *detail/int64(len(modes)) }, func(idx int64, doc, mode string) bool {
+		cases(*tier, func(di int64) bool { return true }, func(idx int64, doc, mode string) bool {
 			if idx != *detail {
 				return true
 			}
@@ -179,7 +227,11 @@ func main() {
 			verdict = "err"
 			h.Reset() // on rejection only the decision is compared
 		}
-		fmt.Fprintf(w, "%d %s %x\n", idx, verdict, h.Sum64())
+		bl := "nonblank"
+		if strings.TrimSpace(doc) == "" {
+			bl = "blank-input"
+		}
+		fmt.Fprintf(w, "%d %s %x %s %s\n", idx, verdict, h.Sum64(), mode, bl)
 		return true
 	})
 }
